@@ -220,20 +220,50 @@ func (seg *Segmenter) splitByBidi(text Input) {
 	if text.Direction.Progression() == di.TowardTopLeft {
 		def = bidi.RightToLeft
 	}
-	seg.bidiParagraph.SetString(string(text.Text[text.RunStart:text.RunEnd]), bidi.DefaultDirection(def))
+	// bidi.Paragraph only processes one paragraph at a time (it stops at the first
+	// paragraph separator, bidi class B) : handle each paragraph in turn
+	for paraStart := text.RunStart; paraStart < text.RunEnd; {
+		paraEnd := paraStart // end of the paragraph, including its separator
+		for paraEnd < text.RunEnd {
+			props, _ := bidi.LookupRune(text.Text[paraEnd])
+			paraEnd++
+			if props.Class() == bidi.B {
+				break
+			}
+		}
+		seg.splitParagraphByBidi(text, paraStart, paraEnd, def)
+		paraStart = paraEnd
+	}
+}
+
+// splitParagraphByBidi appends to the output the bidi runs of the paragraph
+// text.Text[paraStart:paraEnd], merging the first one with the last run of the
+// previous paragraph if they share the same direction.
+func (seg *Segmenter) splitParagraphByBidi(text Input, paraStart, paraEnd int, def bidi.Direction) {
+	appendRun := func(run Input) {
+		if L := len(seg.output); L != 0 && seg.output[L-1].Direction == run.Direction {
+			seg.output[L-1].RunEnd = run.RunEnd
+			return
+		}
+		seg.output = append(seg.output, run)
+	}
+
+	input := text
+	input.RunStart, input.RunEnd = paraStart, paraEnd // start a rune 0 of the paragraph
+
+	seg.bidiParagraph.SetString(string(text.Text[paraStart:paraEnd]), bidi.DefaultDirection(def))
 	out, err := seg.bidiParagraph.Order()
 	if err != nil || out.NumRuns() == 0 {
-		seg.output = append(seg.output, text)
+		appendRun(input)
 		return
 	}
 
-	input := text // start a rune 0 of the run
 	for i := 0; i < out.NumRuns(); i++ {
 		currentInput := input
 		run := out.Run(i)
 		dir := run.Direction()
 		_, endRune := run.Pos()
-		endRune += text.RunStart // shift by the input run position
+		endRune += paraStart // shift by the paragraph position
 		currentInput.RunEnd = endRune + 1
 
 		// override the direction
@@ -243,7 +273,7 @@ func (seg *Segmenter) splitByBidi(text Input) {
 			currentInput.Direction.SetProgression(di.FromTopLeft)
 		}
 
-		seg.output = append(seg.output, currentInput)
+		appendRun(currentInput)
 		input.RunStart = currentInput.RunEnd
 	}
 }
